@@ -552,7 +552,28 @@ func registerSnap(e *liquid.Engine) {
 
 var markerRe = regexp.MustCompile("[\x01\x03][0-9]+[\x02\x04]")
 
-func stripMarkers(s string) string { return markerRe.ReplaceAllString(s, "") }
+func stripMarkers(s string) string {
+	if strings.IndexAny(s, "\x01\x03") < 0 {
+		return s // (outputs can be megabytes long: no regexp over them unless a marker is there)
+	}
+	var sb strings.Builder
+	for len(s) > 0 {
+		i := strings.IndexAny(s, "\x01\x03")
+		if i < 0 {
+			sb.WriteString(s)
+			break
+		}
+		sb.WriteString(s[:i])
+		s = s[i:]
+		if loc := markerRe.FindStringIndex(s[:min(len(s), 16)]); loc != nil && loc[0] == 0 {
+			s = s[loc[1]:]
+		} else {
+			sb.WriteByte(s[0])
+			s = s[1:]
+		}
+	}
+	return sb.String()
+}
 
 // segment extracts the output between snap id and its mark.
 func segment(out string, id int) (string, bool) {
@@ -1311,9 +1332,18 @@ func c14Find(c *Ctx, cs *C14Case, scratch, tag string, out *CaseOut, wantSig str
 		for _, call := range base.fs {
 			reads[x.absPath(call.Path)]++
 		}
+		spent := 0 // bytes of output rendered by the faulted executions of this render
 		for j := -len(base.fs); j < len(base.fs); j++ {
 			// j<0: path-sticky fault on the path of call -j-1 (every read of it fails);
 			// j>=0: only call j fails.
+			if spent > 96<<20 {
+				// a byte budget per render (the graphs with multi-megabyte files): the rest of
+				// the file-system calls of this render go without a fault; deterministic
+				if c != nil {
+					c.count("fault_enumeration_cut_short_by_byte_budget", 1)
+				}
+				break
+			}
 			ci := j
 			if j < 0 {
 				ci = -j - 1
@@ -1335,6 +1365,7 @@ func c14Find(c *Ctx, cs *C14Case, scratch, tag string, out *CaseOut, wantSig str
 				} else {
 					o = x.mainRender(map[int]error{j: en.err})
 				}
+				spent += len(o.res.Out) + 1
 				fired := false
 				exact := true // every read of p in THIS execution failed: "p absent" is the exact reference
 				for _, call := range o.fs {
